@@ -253,7 +253,10 @@ class Translator:
             return f"(nlit ({v}))" if v < 0 else f"(nlit {v})"
         fr = Fraction(str(v))
         if fr.denominator == 1:
-            return self.numlit(fr.numerator)
+            # an integral float literal (0.0, 2.0): written as k / 1 so that it is a *float* in the exception semantics
+            # (lib/PreludeX.v distinguishes int from float operands) and the same number on the other number lines
+            k = self.numlit(fr.numerator)
+            return f"({k} / nlit 1)%num"
         return f"(nlit {fr.numerator} / nlit {fr.denominator})%num"
 
     def var(self, name):
